@@ -340,15 +340,25 @@ func c17NewNotify(base string, dirs []string) (*c17Notify, error) {
 		return nil, err
 	}
 	n := &c17Notify{fd: fd, wd: map[int32]string{}, base: base}
+	if err := n.add(dirs); err != nil {
+		syscall.Close(fd)
+		return nil, err
+	}
+	return n, nil
+}
+
+// add (re-)arms the watches of the given directories on the existing instance.  Closing an inotify instance costs
+// ~10 ms (the kernel waits for an SRCU grace period), so a change of the directory set never re-creates it; the
+// watch of a removed directory goes away by itself (IN_IGNORED).
+func (n *c17Notify) add(dirs []string) error {
 	for _, d := range dirs {
-		wd, err := syscall.InotifyAddWatch(fd, filepath.Join(base, d), c17Mask)
+		wd, err := syscall.InotifyAddWatch(n.fd, filepath.Join(n.base, d), c17Mask)
 		if err != nil {
-			syscall.Close(fd)
-			return nil, err
+			return err
 		}
 		n.wd[int32(wd)] = d
 	}
-	return n, nil
+	return nil
 }
 
 type c17Event struct {
@@ -375,7 +385,11 @@ func (n *c17Notify) drain() (evs []c17Event, lost bool) {
 				name = string(b)
 			}
 			off += syscall.SizeofInotifyEvent + int(ev.Len)
-			if ev.Mask&(syscall.IN_Q_OVERFLOW|syscall.IN_IGNORED|syscall.IN_UNMOUNT) != 0 {
+			if ev.Mask&syscall.IN_IGNORED != 0 { // the watched directory is gone (its deletion was reported before this)
+				delete(n.wd, ev.Wd)
+				continue
+			}
+			if ev.Mask&(syscall.IN_Q_OVERFLOW|syscall.IN_UNMOUNT) != 0 {
 				lost = true
 				continue
 			}
@@ -460,7 +474,7 @@ func (t *c17Tree) toBaseline(k int) error {
 		}
 	}
 	sort.Sort(sort.Reverse(sort.StringSlice(extra))) // children before parents
-	dirChanged := t.cur != k
+	dirChanged := false
 	for _, p := range extra {
 		if t.snap[p].Kind == 'd' {
 			dirChanged = true
@@ -550,7 +564,7 @@ func (t *c17Tree) observe(o *c17Obs, out string) error {
 			return nil // the kernel saw nothing happen below the root during the evaluation
 		}
 		if lost {
-			if err := t.rewatch(); err != nil {
+			if err := t.resetWatch(); err != nil {
 				return err
 			}
 		}
@@ -578,18 +592,27 @@ func (t *c17Tree) dirList() []string {
 
 func (t *c17Tree) rewatch() error {
 	if t.notify != nil {
-		syscall.Close(t.notify.fd)
+		return t.notify.add(t.dirList())
 	}
 	n, err := c17NewNotify(t.base, t.dirList())
 	t.notify = n
 	return err
 }
 
+// resetWatch re-creates the inotify instance (after a queue overflow or an event of an unknown watch).
+func (t *c17Tree) resetWatch() error {
+	if t.notify != nil {
+		syscall.Close(t.notify.fd)
+		t.notify = nil
+	}
+	return t.rewatch()
+}
+
 // quiet drains the events of the harness's own file operations; called right before an evaluation.
 func (t *c17Tree) quiet() {
 	if t.notify != nil {
 		if _, lost := t.notify.drain(); lost {
-			_ = t.rewatch()
+			_ = t.resetWatch()
 		}
 	}
 }
